@@ -463,6 +463,9 @@ async fn run(case: Json, tol: Tolerate, prop: &'static str) -> Outcome {
                 while let Ok(st) = l.try_recv() {
                     out.hit("probe.dut-active-connection-arrived");
                     let mut sp = mk();
+                    if net::trace_on() {
+                        eprintln!("[trace] DUT-initiated connection {} arrived (side 0 has {:?})", st.conn_id(), sides[0].spk.conn.as_ref().map(|c| (c.conn_id(), sides[0].spk.state)));
+                    }
                     sp.attach(st);
                     if sides[0].spk.conn.is_none() || sides[0].spk.state == SpkState::Closed {
                         if sides[0].spk.conn.is_some() {
@@ -486,6 +489,9 @@ async fn run(case: Json, tol: Tolerate, prop: &'static str) -> Outcome {
         }
         // a surplus connection in the same direction must have been dropped by the DUT before any OPEN
         for e in &extras {
+            if net::trace_on() {
+                eprintln!("[trace] surplus connection {:?}: state {:?} open {:?} peer_closed {:?}", e.conn.as_ref().map(|c| c.conn_id()), e.state, e.dut_open.is_some(), e.conn.as_ref().map(|c| c.ctl().peer_closed()));
+            }
             if e.state != SpkState::Closed || e.dut_open.is_some() {
                 fail!("admission/second-connection-in-same-direction-served", "op {} {}: the DUT keeps two active connections to the peer (OPEN sent on the surplus one: {})", opi, op.to_compact(), e.dut_open.is_some());
             } else {
